@@ -647,7 +647,7 @@ def run(ctx):
 
 
 MANIFEST_ENTRY = {
-    "technique": "static analysis: abstract evaluation (rules/absint.py) of get_icu_keys -> get_icu_keys_inner -> find_used_datakey, get_locales, parse_inner and the datagen driver over generated key trees (each family alone / all five in every order, formatters on count variables, sub-key depth, namespaces), and of Options::into_data_keys per family; the data markers each run-time ICU4X constructor loads are read from the locked dependency sources (py/depsrc.py) and must be covered by the family's evaluated key list; MIR loop-exit rules as fallback; abstract evaluation of get_keys on every subset of the option families (exactly the union of their keys); the collector clause of C08.R1 and the SKIP_ICU_CFG normal-form rule shared with C11.R7; push_var evaluated (shared with C08.R2): every formatter a variable is used with is recorded",
+    "technique": "static analysis: abstract evaluation (rules/absint.py) of get_icu_keys -> get_icu_keys_inner -> find_used_datakey, get_locales, parse_inner and the datagen driver over generated key trees (each family alone / all five in every order, formatters on count variables, sub-key depth, namespaces), and of Options::into_data_keys per family; the data markers each run-time ICU4X constructor loads are read from the locked dependency sources (py/depsrc.py) and must be covered by the family's evaluated key list; MIR loop-exit rules as fallback; abstract evaluation of get_keys on every subset of the option families (exactly the union of their keys); the collector clause of C08.R1 and the SKIP_ICU_CFG normal-form rule shared with C11.R7; push_var evaluated (shared with C08.R2): every formatter a variable is used with is recorded; get_locales_langids evaluated on names with region and variant subtags (structured parse result); C20.R8 / R9: the merge clause of C08.R2 and the sub-key clause of C05.R2 (merge_plurals) shared",
     "level_text": "Finite abstract evaluation of the option walk (if and only if, any depth, any namespace) and of the locale list; the data keys of each family are closed against the markers required by the ICU4X constructors the run time calls, read from dependency sources. Generated ICU data is not inspected.",
     "level_note": "Fixed upstream: D22 (currency lacked decimal/symbols@1), D23 (namespaces = [] reported no locale). Completeness of the walked key information over locales/foreign keys is C08's clause.",
 }
